@@ -465,6 +465,8 @@ PROPS['C12'].setdefault('scope', {}).update({
 PROPS['C13'].setdefault('scope', {}).update({
     'SB-LABEL': lambda f: False, 'TA-RNG': lambda f: False})
 PROPS['C20']['rules'] += [R3.rule_profile_confined_raise]
+PROPS['C16']['rules'] += [R3.rule_metadata_canonical]
+PROPS['C07']['rules'] += [R3.rule_metadata_canonical]
 for _p in PROPS.values():
     for _k, _v in R3.RULE_TEXT.items():
         _p['rule_texts'].setdefault(_k, ' '.join(_v.split()))
